@@ -92,6 +92,14 @@ def base_dim_collisions(ctx):
     return [(i, ns) for i, ns in sorted(idx.items()) if len(ns) > 1]
 
 
+def check_prefixes(ctx, prefixes, want):
+    """TLC judges the prefix templates of the tree against the SI / IEC tables written in Trace_Prefixes.tla.  want: "mag" | "symbol".
+    Returns the list of offending prefix names (and reports the ones the tree no longer defines as notes)."""
+    recs = [{"prefix": k, "mag": v["mag"], "label": v["label"]} for k, v in sorted(prefixes.items())]
+    n, bad = ctx.tlc_batch_validate("Trace_Prefixes.tla", recs, name="prefixes", shards=1)
+    return [b for b in bad if not b[("mag_ok" if want == "mag" else "symbol_ok")]]
+
+
 def mag_fraction(mag):
     """exact Fraction of a rational magnitude pack, None if irrational / fractional exponents"""
     v = Fraction(1)
